@@ -137,7 +137,7 @@ def instance_fails(kind, desc, sig):
 
 
 def run(ctx):
-    ctx.prove()
+    ctx.prove(props=["C02", "C02_forms"])
     rng = ctx.rng
     count = 300 if ctx.quick else 3000
     max_n = 14 if ctx.quick else 16
@@ -207,6 +207,7 @@ def run(ctx):
                            S=str(S), implementation=str(outs[cfg_i][1]), model=model[-3000:]), False)
     if ctx.tier == "thorough":
         ctx.coqchk("VQP.C02")
+        ctx.coqchk("VQP.C02_forms")
 
 
 def fh_int(d):
